@@ -7,6 +7,11 @@ LEAN = os.path.join(VERIF, "lean")
 HARNESS = os.path.join(VERIF, "harness")
 WORK = os.path.join(VERIF, "work")
 DRIVER = os.path.join(LEAN, ".lake", "build", "bin", "driver")
+# Seeded-change runs (bin/seedcheck, VERIF_REPO set) may be frozen against concurrent edits of the Lean
+# sources: a frozen copy of the driver is used and Lean builds are skipped (the model is not what changes).
+FROZEN = REPO != "/repo" and os.path.exists("/tmp/sw/FREEZE") and os.path.exists("/tmp/sw/driver")
+if FROZEN:
+    DRIVER = "/tmp/sw/driver"
 FLAVOURS = ["async-std", "tokio"]          # every binary also contains the sync API
 FEATURE = {"async-std": "rt-async-std", "tokio": "rt-tokio", "sync": None}
 
@@ -67,6 +72,8 @@ def build_harness(flavours):
 
 
 def build_lean(targets):
+    if FROZEN:
+        return 0, "frozen", 0.0
     t = time.time()
     rc, o = run(["lake", "build"] + targets, cwd=LEAN, timeout=3600)
     return rc, o, time.time() - t
